@@ -8,6 +8,7 @@ CONSTANTS
   Tolerated <- NoTol
   FnOut = FALSE
   Poller = FALSE
+  Aging = FALSE
   Gen = "full"
 INVARIANTS EmitScn
 CHECK_DEADLOCK FALSE
